@@ -119,7 +119,7 @@ PROPERTIES = {
                  "add_event in the past under catch_unwind on marked events, the clock writer is observed through hook H4 and the event set is walked "
                  "through H6; every third program is additionally driven in random n-event / until-time steps, and after every step add_event(sim_time() - 1 ns) "
                  "is attempted on the paused runtime (half of these stepped runs also add events from outside while paused, at / after the reported time). Oracle: now == scheduled, non-decreasing, each event exactly once, every add at/after now accepted, every "
-                 "add before now / before the start time / before the time reported while paused rejected and never dispatched, end time = last event. Every 20 programs a net-level probe injects messages at absolute timestamps through Runtime<Sim>::add_message_onto / handle_message_on - before the run with start time 0 / 5 s / 10^6 s, and on a runtime paused by an until-step: each is handled at exactly its timestamp, an injection below the current time is rejected. Every 20 programs a small application runs on a timeline beyond 2^64 ns (start time 18 446 744 000 s, events up to 400 s later with relative and absolute follow-ups): now == scheduled, non-decreasing, adds at / after now accepted, end time = last event. The same driver also runs against des built without the cqueue feature (BinaryHeap event set; stage heap-backend, both tiers). Non-trivial = program with >= 3 events that ran clean; "
+                 "add before now / before the start time / before the time reported while paused rejected and never dispatched, end time = last event. Every 20 programs a net-level probe injects messages at absolute timestamps through Runtime<Sim>::add_message_onto / handle_message_on - before the run with start time 0 / 5 s / 10^6 s, and on a runtime paused by an until-step: each is handled at exactly its timestamp, an injection below the current time is rejected. Every 20 programs a small application runs on a timeline beyond 2^64 ns (start time 18 446 744 000 s, events up to 400 s later with relative and absolute follow-ups): now == scheduled, non-decreasing, adds at / after now accepted, end time = last event. Every 500 programs a simulation whose handlers take 2 ms of wall-clock time runs while another thread calls Builder::build with another start time (des serialises simulations: that call has to wait and must not touch the running clock). The same driver also runs against des built without the cqueue feature (BinaryHeap event set; stage heap-backend, both tiers). Non-trivial = program with >= 3 events that ran clean; "
                  "distinct = hash of the program."),
         "assumptions": ["the handlers of the monitor application are the observation boundary; H4 observes every SimTime::set_now",
                         "start times are restricted to those the calendar queue can reach by scanning <= 1e6 buckets from zero (a larger start time "
@@ -134,10 +134,10 @@ PROPERTIES = {
                       "pre_run_adds_before_start_rejected": 50000, "clock_writes_observed": 1000000, "event_set_walks": 100000,
                       "stepped_runs": 20000, "paused_adds_below_reported_time_rejected": 50000,
                       "programs_starting_beyond_10_7_seconds": 2000, "heap_events_handled": 200000, "net_injection_probes": 4000,
-                      "runs_on_a_timeline_beyond_2_64_ns": 4000},
+                      "runs_on_a_timeline_beyond_2_64_ns": 4000, "runs_with_a_second_builder_in_another_thread": 150},
             "thorough": {"events_handled": 50000000, "past_adds_rejected_in_handlers": 1000000, "programs_with_nonzero_start": 1000000,
                          "pre_run_adds_before_start_rejected": 1000000, "clock_writes_observed": 50000000, "heap_events_handled": 1000000,
-                         "programs_starting_beyond_10_7_seconds": 30000, "net_injection_probes": 80000, "runs_on_a_timeline_beyond_2_64_ns": 80000},
+                         "programs_starting_beyond_10_7_seconds": 30000, "net_injection_probes": 80000, "runs_on_a_timeline_beyond_2_64_ns": 80000, "runs_with_a_second_builder_in_another_thread": 3000},
         },
     },
     "C10": {
@@ -215,7 +215,7 @@ PROPERTIES = {
         "level": "exploration",
         "rule": ("declared gate chains [g0..gk], k = 1..20 hops (a twelfth: 17..50 hops, mostly without channels, so that more than 16 hops are traversed within one event), gates on one module / a line of modules / random modules, named gates or clusters (a third of the cases creates the cluster members one by one with create_raw_gate: in descending order, starting in the middle, or with a foreign gate between the first and second member), channels "
                  "(bitrate, latency, a quarter of them with a small jitter: the arrival must then lie in [sum, sum + jitters]) on random hops; built by connect calls in EVERY permutation for k <= 5 (every orientation vector for k <= 4) "
-                 "and random permutations / orientations above, with repeated calls mixed in; every 200 cases a hop is connected while the simulation runs, from the channel object of a hop that is transmitting, and three well separated messages over it must each arrive exactly once after transmission time + latency; 1..4 uncontended messages per chain in both directions with send "
+                 "and random permutations / orientations above, with repeated calls mixed in; every 200 cases a hop is connected while the simulation runs, from the channel object of a hop that is transmitting, and three well separated messages over it must each arrive exactly once after transmission time + latency, and every 200 cases a hop carries messages in both directions at overlapping times (the directions do not interfere); 1..4 uncontended messages per chain in both directions with send "
                  "and send_in (on chains without jitter a third of them with a second message of the same size sent right behind in the same handler: it is queued behind the first on every hop with a transmission time and must arrive exactly once, at the far end, at the time a tandem of FIFO queues gives), a fifth of them sent by a third module through a reference to the end gate (which, in a third of the cases, shuts itself down in the event of its last send). Oracle = the declared chain: kind of every gate, path_iter from both ends (exact mirror images), path_end, channel(), symmetry "
                  "after each connect, idempotence of repeated connects, rejection of a third peer; each message handled exactly once, by the owner of the far "
                  "end, at send time + sum of per-hop (latency + size*8/bitrate), with sender id, receiver id and last gate in the header. Non-trivial = chain "
@@ -230,10 +230,10 @@ PROPERTIES = {
                       "enumerated_connect_orders": 1000, "chains_with_channels": 30000, "chains_with_reverse_sends": 30000, "max_hops": 45,
                       "chains_with_more_than_16_consecutive_hops_without_channel": 1000,
                       "sends_by_a_third_module_through_a_gate_reference": 10000,
-                      "chains_over_clusters_created_member_by_member_out_of_order": 3000, "hops_connected_at_run_time_from_a_busy_channel": 150, "messages_sent_right_behind_another_and_queued_on_the_way": 8000},
+                      "chains_over_clusters_created_member_by_member_out_of_order": 3000, "hops_connected_at_run_time_from_a_busy_channel": 150, "messages_sent_right_behind_another_and_queued_on_the_way": 8000, "hops_with_traffic_in_both_directions_at_once": 150},
             "thorough": {"deliveries_checked": 2000000, "chain_walks_checked": 2000000, "repeated_connect_calls": 400000, "third_peer_rejections": 1000000,
                          "enumerated_connect_orders": 1000, "max_hops": 20,
-                         "chains_over_clusters_created_member_by_member_out_of_order": 60000, "hops_connected_at_run_time_from_a_busy_channel": 3000, "messages_sent_right_behind_another_and_queued_on_the_way": 160000},
+                         "chains_over_clusters_created_member_by_member_out_of_order": 60000, "hops_connected_at_run_time_from_a_busy_channel": 3000, "messages_sent_right_behind_another_and_queued_on_the_way": 160000, "hops_with_traffic_in_both_directions_at_once": 3000},
         },
     },
     "C19": {
@@ -259,7 +259,7 @@ PROPERTIES = {
         "level": "exploration",
         "rule": ("1..4 async modules x 1..8 tasks x up to 30 steps of generated timer scripts: sleep, sleep_until (also in the past), timeout over "
                  "{sleep, yield_now, pending, far-future sleep}, biased select! of two sleeps (one possibly far future), poll-once-then-drop, pinned sleep "
-                 "with reset (before its deadline, and after the deadline was reached while the task waited for another timer), interval sections with Burst / Delay / Skip and late ticks (a third of them created with interval_at with the first tick due 50 / 10 ms ago, now, or in 10 / 100 ms; Interval::reset between ticks and, for a third of the interval_at sections, before the first tick - which may be more than one period away), two sleeps of one task with the same deadline of which the first registered is dropped and the second awaited, recv from a channel fed at generated instants; a third of the scripts goes through the other entry points (sleep_until(now + d), timeout_at, interval_at(now, p)) and the accessors deadline() / is_elapsed() / period() / missed_tick_behavior() must agree with what was asked for; half of the cases add up to 6 unrelated self messages per module, three quarters of them arriving exactly at a timer deadline of that module and half of them swallowed by a processing element (the handler never runs in that event) - they must not move any completion; durations from a small "
+                 "with reset (before its deadline, and after the deadline was reached while the task waited for another timer), interval sections with Burst / Delay / Skip and late ticks (a third of them created with interval_at with the first tick due 50 / 10 ms ago, now, or in 10 / 100 ms; Interval::reset between ticks and, for a third of the interval_at sections, before the first tick - which may be more than one period away), two sleeps of one task with the same deadline of which the first registered is dropped and the second awaited, disarmed timers (sleep(Duration::MAX), polled once) armed by reset to one of four absolute instants - so that several tasks arm theirs to the same deadline - of which half are given up half way, recv from a channel fed at generated instants; a third of the scripts goes through the other entry points (sleep_until(now + d), timeout_at, interval_at(now, p)) and the accessors deadline() / is_elapsed() / period() / missed_tick_behavior() must agree with what was asked for; half of the cases add up to 6 unrelated self messages per module, three quarters of them arriving exactly at a timer deadline of that module and half of them swallowed by a processing element (the handler never runs in that event) - they must not move any completion; durations from a small "
                  "set (whole milliseconds up to 10 s, plus 0.3 ms and 0.7 ms: deadlines of different tasks may differ by less than a millisecond) so that deadlines collide across tasks and cancelled timers leave empty slots in front of live ones. Every step logs (module, task, "
                  "step, SimTime::now(), outcome); oracle = reference interpreter in virtual time: completion time equal (never earlier, never later), outcome "
                  "equal, every step completes, run() Ok, run does not end before the last deadline; hook H5: after every module event a waiting timer has a "
@@ -276,11 +276,11 @@ PROPERTIES = {
         ],
         "floor": {
             "quick": {"timer_steps_checked": 2000000, "module_events_with_empty_slots_in_front_of_live_timers": 100000, "steps_timeout": 100000,
-                      "steps_select": 100000, "steps_reset": 50000, "steps_poll_then_drop": 50000, "steps_interval_tick": 300000, "steps_recv": 100000,
-                      "steps_interval_at": 40000, "steps_interval_reset": 60000, "steps_twin_timers_first_dropped": 20000, "steps_through_sleep_until_timeout_at_interval_at": 500000,
+                      "steps_select": 100000, "steps_reset": 50000, "steps_poll_then_drop": 30000, "steps_interval_tick": 300000, "steps_recv": 100000,
+                      "steps_interval_at": 40000, "steps_interval_reset": 60000, "steps_twin_timers_first_dropped": 20000, "steps_far_future_sleep_armed_by_reset": 15000, "steps_through_sleep_until_timeout_at_interval_at": 500000,
                       "unrelated_messages_arriving_at_a_timer_deadline": 30000, "unrelated_messages_swallowed_by_a_processing_element": 15000},
             "thorough": {"timer_steps_checked": 40000000, "module_events_with_empty_slots_in_front_of_live_timers": 2000000, "miri_timer_steps_checked": 200,
-                         "steps_interval_at": 800000, "steps_interval_reset": 1200000, "steps_twin_timers_first_dropped": 400000, "steps_through_sleep_until_timeout_at_interval_at": 10000000,
+                         "steps_interval_at": 800000, "steps_interval_reset": 1200000, "steps_twin_timers_first_dropped": 400000, "steps_far_future_sleep_armed_by_reset": 300000, "steps_through_sleep_until_timeout_at_interval_at": 10000000,
                          "unrelated_messages_arriving_at_a_timer_deadline": 600000, "unrelated_messages_swallowed_by_a_processing_element": 300000},
         },
     },
@@ -290,7 +290,7 @@ PROPERTIES = {
                  "spawn bursts of N tasks that yield k times and optionally sleep to a common deadline (timer wake-up of N tasks at once), notify_waiters "
                  "broadcasts to N waiting tasks, wake chains of depth <= 2000 through oneshot / mpsc / semaphore / join handles (a third of them alternating between tokio::spawn and spawn_local tasks), one task draining up to 10000 "
                  "channel items in one instant (tokio coop budget), N tasks woken by a processing element that consumes the trigger message (the handler never runs "
-                 "in that event), a handler that fires its trigger and requests the shutdown of its module in the same event, 1..8 tasks awaiting timeout(1 ms / 1 s / 7 s, oneshot) that a sibling task answers in the same event (the timeout's timer is armed and disarmed within one instant) and then sleeping 1 ms..10 s, 1..6 tasks holding an idle timer (pinned sleep) that is re-armed 1..3 times within one event to the deadline it is already registered for, 1..6 tasks holding two sleeps with the same deadline of which the first registered is dropped and the other awaited, 1..5 tasks awaiting timeout(3 s / 10 s, oneshot) that a later message of the module answers after 1 s / 2 s (the timer is cancelled in a later event, before its deadline) and then sleeping past the cancelled deadline, and (one trigger in 300) a single task that stays runnable for 300000..600000 polls within one instant (the executor then needs a noticeable amount of wall-clock time; only virtual time may decide when the task continues); N in {1,2,60,61,62,122,123,200,1000,5000}; each with tokio::spawn and with spawn_local "
+                 "in that event), a handler that fires its trigger and requests the shutdown of its module in the same event, 1..8 tasks awaiting timeout(1 ms / 1 s / 7 s, oneshot) that a sibling task answers in the same event (the timeout's timer is armed and disarmed within one instant) and then sleeping 1 ms..10 s, 1..6 tasks holding an idle timer (pinned sleep) that is re-armed 1..3 times within one event to the deadline it is already registered for, 1..6 tasks holding two sleeps with the same deadline of which the first registered is dropped and the other awaited, 1..5 tasks awaiting timeout(3 s / 10 s, oneshot) that a later message of the module answers after 1 s / 2 s (the timer is cancelled in a later event, before its deadline) and then sleeping past the cancelled deadline, 2..9 tasks whose sleeps end 0.1 ms apart (registered in ascending or descending order), 2..7 tasks arming a disarmed timer (sleep(Duration::MAX)) to a common deadline of which every second gives up half way, and (one trigger in 300) a single task that stays runnable for 300000..600000 polls within one instant (the executor then needs a noticeable amount of wall-clock time; only virtual time may decide when the task continues); N in {1,2,60,61,62,122,123,200,1000,5000}; each with tokio::spawn and with spawn_local "
                  "(every tenth case: spawn_local work needing more than one LocalSet turn of 61 polls). Every task logs SimTime::now() after each await; the "
                  "instant its condition became true is known by construction; a later sentinel event of the module makes stranded work visible. Oracle: "
                  "logged now == enabling instant for every wake-up, every task finished at the end. Non-trivial = case with an instant needing > 61 polls; "
@@ -306,18 +306,20 @@ PROPERTIES = {
                       "scenarios_message_consumed_by_processing_element": 500,
                       "scenarios_timeout_answered_within_the_instant_then_sleep": 800,
                       "scenarios_sleep_rearmed_to_its_own_deadline": 700, "scenarios_one_task_runnable_for_over_300000_polls": 10,
-                      "scenarios_twin_timers_first_dropped": 600, "scenarios_timeout_answered_in_a_later_event_then_sleep": 500},
+                      "scenarios_twin_timers_first_dropped": 600, "scenarios_timeout_answered_in_a_later_event_then_sleep": 500,
+                      "scenarios_deadlines_less_than_a_millisecond_apart": 500, "scenarios_far_future_sleeps_armed_to_a_common_deadline": 500},
             "thorough": {"wakeups_observed": 100000000, "instants_needing_more_than_61_polls": 60000, "instants_needing_more_than_122_polls": 40000,
                          "scenarios_with_spawn_local": 30000, "spawn_local_over_budget_cases": 6000,
                          "scenarios_timeout_answered_within_the_instant_then_sleep": 15000,
                          "scenarios_sleep_rearmed_to_its_own_deadline": 12000, "scenarios_one_task_runnable_for_over_300000_polls": 200,
-                         "scenarios_twin_timers_first_dropped": 10000, "scenarios_timeout_answered_in_a_later_event_then_sleep": 8000},
+                         "scenarios_twin_timers_first_dropped": 10000, "scenarios_timeout_answered_in_a_later_event_then_sleep": 8000,
+                         "scenarios_deadlines_less_than_a_millisecond_apart": 8000, "scenarios_far_future_sleeps_armed_to_a_common_deadline": 8000},
         },
     },
     "C09": {
         "level": "fault_enumeration",
         "rule": ("root p0 with 1..3 victim children and a receiver p1; per victim 0..3 shutdown / restart cycles plus requests that arrive while it is down, "
-                 "requested from a message handler or from a task, restart never / in d / at t (a quarter of the restart requests is preceded, in the same event, by a plain shutdown(): a restart time was given, so the module restarts), two victims sharing the same instants; every incarnation sends a message from its first start-up stage and one in the very event in which it requests its shutdown (both must be delivered); a quarter of the victims is an AsyncFn block (one task receiving the module's messages) instead of a hand-written module, ticker task, "
+                 "requested from a message handler or from a task, restart never / in d / at t (a quarter of the restart requests is preceded, in the same event, by a plain shutdown(): a restart time was given, so the module restarts), two victims sharing the same instants; every incarnation sends a message from its first start-up stage and one in the very event in which it requests its shutdown - before the request or, in a third of the shutdowns, after it (both must be delivered: the module is up until the end of that event); a quarter of the victims is an AsyncFn block (one task receiving the module's messages) instead of a hand-written module, ticker task, "
                  "self-message beat chain, data messages over a delayed channel (also in flight at the request / restart instant), messages passing through a "
                  "transit gate of the victim on their way to p1 (sent while up, at the gate while down), the parent probing child() periodically; a third of the hand-written victims installs a processing element that logs every event its stack sees, a quarter spawns a task in Module::reset that sleeps 1 / 16 / 106 ms and then logs (neither may show strictly inside a down interval; the at_sim_end call, which des delivers to every module, is exempt); every fifth "
                  "case places arrivals exactly on request / restart instants. All callbacks log into one global sequence. Oracle = evaluation of the statement: "
@@ -334,18 +336,20 @@ PROPERTIES = {
                       "transit_messages_in_flight_at_shutdown": 5000, "shutdown_requests_from_tasks": 10000, "shutdown_requests_from_handlers": 10000,
                       "cases_with_deliberate_coincidences": 2000, "log_entries_checked": 5000000,
                       "events_seen_by_victim_processing_stacks": 500000, "victims_spawning_a_sleeping_task_in_reset": 2000,
-                      "restart_requests_issued_right_after_a_plain_shutdown_in_the_same_event": 4000},
+                      "restart_requests_issued_right_after_a_plain_shutdown_in_the_same_event": 4000,
+                      "shutdown_events_sending_a_message_after_the_request": 8000},
             "thorough": {"shutdowns_effective": 400000, "restarts": 300000, "data_messages_due_while_down": 1000000,
                          "transit_messages_due_while_down": 1000000, "transit_messages_in_flight_at_shutdown": 100000, "log_entries_checked": 100000000,
                          "events_seen_by_victim_processing_stacks": 15000000, "victims_spawning_a_sleeping_task_in_reset": 40000,
-                         "restart_requests_issued_right_after_a_plain_shutdown_in_the_same_event": 80000},
+                         "restart_requests_issued_right_after_a_plain_shutdown_in_the_same_event": 80000,
+                         "shutdown_events_sending_a_message_after_the_request": 150000},
         },
     },
     "C12": {
         "level": "exploration",
         "rule": ("declared module trees (2..25 nodes, depth <= 4, fan-out <= 4, sibling names from {a, ab, a1, b, a[0], abc, node, node1, node10, x_y, non-ASCII}, "
                  "0..4 start stages per module, nodes created directly or through a ModuleBlock with a scoped builder) inserted in EVERY valid order (parents first) "
-                 "for trees of <= 6 nodes and in random valid orders above; each module schedules a self message; a twelfth of the modules reports an error from at_sim_end (run() must return an error and every module is still torn down exactly once), a twelfth shuts itself down in its first start-up stage (its remaining declared stages are still delivered), one module in 14 panics while it handles its self message (not caught: run() returns an error; every module - also that one - is still torn down exactly once after the last event). All at_sim_start / handle_message / at_sim_end "
+                 "for trees of <= 6 nodes and in random valid orders above; each module schedules a self message; a twelfth of the modules reports an error from at_sim_end (run() must return an error and every module is still torn down exactly once), a twelfth shuts itself down in its first start-up stage (its remaining declared stages are still delivered), one module in 14 panics while it handles its self message (not caught: run() returns an error; every module - also that one - is still torn down exactly once after the last event); a fifth of the runs is stopped by an event-count limit with self messages still pending and torn down all the same. All at_sim_start / handle_message / at_sim_end "
                  "calls log into one sequence. Oracle from the declaration alone: start sequence == stage-major x depth-first pre-order with siblings in creation "
                  "order, exactly once per declared stage; at_sim_end exactly once per module and after the last event callback; current().path / name / parent / "
                  "child agree with the tree inside every callback; Sim::nodes() == declared set; duplicate path and missing parent rejected by a panic (fresh "
@@ -359,15 +363,15 @@ PROPERTIES = {
         "floor": {
             "quick": {"insertion_orders_executed": 100000, "start_calls_checked": 1000000, "trees_with_all_insertion_orders": 2000,
                       "trees_with_prefix_sharing_siblings": 50000, "builder_rejection_probes": 10000, "insertion_orders_not_in_declaration_order": 90000,
-                      "trees_with_a_module_that_panics_during_the_run": 20000},
+                      "trees_with_a_module_that_panics_during_the_run": 20000, "runs_stopped_by_an_event_limit_with_messages_pending": 15000},
             "thorough": {"insertion_orders_executed": 2000000, "start_calls_checked": 20000000, "trees_with_all_insertion_orders": 40000,
-                         "builder_rejection_probes": 200000, "trees_with_a_module_that_panics_during_the_run": 400000},
+                         "builder_rejection_probes": 200000, "trees_with_a_module_that_panics_during_the_run": 400000, "runs_stopped_by_an_event_limit_with_messages_pending": 300000},
         },
     },
     "C14": {
         "level": "exploration",
         "rule": ("1..2 device-under-test modules with stacks of 0..4 elements from {pass, tag (sets a bit in the message), consume-if(id % m == r), chatty (sends a message "
-                 "from every hook)}, supplied globally through set_stack, per module through Module::stack (element by element or as one appended stack), or both; a sixth of the modules ignores the base stack it is handed and returns its own elements only (exactly those are then installed); 3..42 self messages at distinct instants, a task "
+                 "from every hook)}, supplied globally through set_stack, per module through Module::stack (element by element or as one appended stack), or both; a sixth of the modules ignores the base stack it is handed and returns its own elements only (exactly those are then installed); every 1000 cases a simulation with a global element is built from a network description through a registry (one type by symbol, the others by its fallback): every event of every such module is bracketed by the global element; 3..42 self messages at distinct instants, a task "
                  "with timer wake-ups, 1..2 start stages, optionally shutdown-and-restart (restart stages), tear-down (a sixth of the modules reports an error from at_sim_end, which run() must return); handlers optionally send two messages; a sixth of the modules (catching stereotype) panics in the handler of one message: that event is closed like any other and the module is inert afterwards. All hooks, "
                  "handlers, task wake-ups and the receptions of the messages sent from hooks log into one sequence. Oracle = bracket grammar per module event: "
                  "event_start exactly once per element in stack order; incoming only after that element's start, in order, element i+1 sees exactly the tags "
@@ -384,10 +388,10 @@ PROPERTIES = {
             "quick": {"brackets_parsed": 800000, "messages_consumed_by_an_element": 100000, "timer_wakeup_brackets": 20000, "restart_stage_brackets": 5000,
                       "teardown_brackets": 20000, "messages_sent_from_hooks_received": 500000, "cases_with_global_and_module_stack": 5000,
                       "cases_with_stack_of_4": 2000, "cases_with_stack_of_0": 300, "teardowns_reporting_an_error": 2000,
-                      "cases_appending_a_longer_module_stack_at_once": 500, "cases_with_a_module_that_replaces_the_global_stack": 2000},
+                      "cases_appending_a_longer_module_stack_at_once": 500, "cases_with_a_module_that_replaces_the_global_stack": 2000, "simulations_built_from_a_description_with_a_global_stack": 20},
             "thorough": {"brackets_parsed": 16000000, "messages_consumed_by_an_element": 2000000, "timer_wakeup_brackets": 400000,
                          "restart_stage_brackets": 100000, "cases_with_global_and_module_stack": 100000,
-                         "cases_with_a_module_that_replaces_the_global_stack": 40000},
+                         "cases_with_a_module_that_replaces_the_global_stack": 40000, "simulations_built_from_a_description_with_a_global_stack": 300},
         },
     },
     "C13": {
@@ -396,7 +400,7 @@ PROPERTIES = {
         "rule": ("generated deterministic models (3..5 modules, ring or star, 1..2 start stages, timers that inject tokens which are forwarded with a hop budget, "
                  "optional tasks with timer steps, a quarter of the modules shuts down and restarts after its k-th message); for every model a fault-free baseline run gives the occurrence counts, then EVERY single placement "
                  "(module x {at_sim_start(stage), start stage of the restart, k-th handle_message before / after its sends, at_sim_end} x {non-catching, catching stereotype} (a share of the handler faults is raised inside the simulator: the documented panic of sending on a transit gate; every second handler placement also in the form 'spawn a task that would send a token to a neighbour, then fault' - the task must never be polled), plus every step "
-                 "of a joined task, registered with join and with try_join - half of the modules register a never-finishing service task with try_join first) and pairs of placements in two modules (all pairs for small models, 60 sampled otherwise) are executed twice with the real "
+                 "of a joined task, registered with join and with try_join - half of the modules register a never-finishing service task with try_join first; only the task of a module's first incarnation is faulty, so that after a restart the old task's panic must still be reported while the module and its new task run on) and pairs of placements in two modules (all pairs for small models, 60 sampled otherwise) are executed twice with the real "
                  "code: A panics at the point, B falls silent there. Oracle: A returns (no unwind, no abort: a dead worker counts as violation), the error lists "
                  "exactly the modules whose reached fault is not caught (PanicError / JoinError paths), every non-faulty module's log in A equals its log in B, the "
                  "faulty module handles nothing after the fault and is reported inactive at tear-down, the statics (module context, event buffer, globals) are "
@@ -479,9 +483,9 @@ PROPERTIES = {
     },
     "C16": {
         "level": "exploration",
-        "rule": ("random operation sequences (3..62 operations) over a pool of messages whose bodies are drawn from 44 types: u8 u32 i32 f32 [u8;4] u64 u128 bool char "
+        "rule": ("random operation sequences (3..62 operations) over a pool of messages whose bodies are drawn from 46 types: u8 u32 i32 f32 [u8;4] u64 u128 bool char "
                  "String Vec<u8> Option Result Box VecDeque BTreeMap () two layout twins, derived named / tuple / unit structs, a derived enum with unit / tuple / "
-                 "named / nested variants, generic derived types, two tracked clonable types, a tracked non-clonable type, a zero-sized type with a counted destructor, a non-debuggable type, and - so that every MessageBody impl of des is measured with elements of differing length - [String;3], [Option<u32>;4], LinkedList<String>, HashMap<u8,String> (up to 39 entries), HashSet<String>, BTreeSet<String>, a derived wrapper of BinaryHeap<u16>, (IpAddr, SocketAddr, Duration, SimTime) with v4 and v6 addresses, Vec<String>, &'static str, &'static [u16], the 1-tuple, an 8-tuple and a tuple of the remaining integer / float primitives; every 500 sequences a probe with two distinct types that share one type name (same-named items in two block scopes). Operations: "
+                 "named / nested variants, generic derived types, two tracked clonable types, a tracked non-clonable type, a zero-sized type with a counted destructor, a non-debuggable type, and - so that every MessageBody impl of des is measured with elements of differing length - [String;3], [Option<u32>;4], LinkedList<String>, HashMap<u8,String> (up to 39 entries), HashSet<String>, BTreeSet<String>, a derived wrapper of BinaryHeap<u16>, (IpAddr, SocketAddr, Duration, SimTime) with v4 and v6 addresses, Vec<String>, &'static str, &'static [u16], the 1-tuple, an 8-tuple, a tuple of the remaining integer / float primitives, and a derived struct and a derived enum whose named fields start with an underscore (reserved / padding fields count like any other); every 500 sequences a probe with two distinct types that share one type name (same-named items in two block scopes). Operations: "
                  "create (set_content* / set_body / with_body / Body::new_with_len with a length declared by the caller / Message::from_parts), replace content (same or other type), try_clone, probe with a foreign type (can_cast, try_content, "
                  "try_content_mut; layout twins preferred), failing try_cast (message must come back intact), try_cast to the own type, try_content_mut, format, "
                  "drop. Shadow model (type, value, length, id) checked after every operation; tracked values dropped exactly once at the end; length() == 64 + a "
@@ -498,7 +502,7 @@ PROPERTIES = {
         "floor": {
             "quick": {"operations": 4000000, "probes_with_foreign_type": 500000, "probes_between_layout_twins": 80000, "failed_casts_message_returned_intact": 250000,
                       "casts_to_own_type": 250000, "clones_checked": 500000, "try_clone_of_non_clonable": 10000, "content_replacements": 250000,
-                      "channel_transmissions_timed": 1000, "body_types": 44},
+                      "channel_transmissions_timed": 1000, "body_types": 46},
             "thorough": {"operations": 80000000, "probes_between_layout_twins": 1600000, "miri_operations": 20000, "asan_operations": 2000000},
         },
     },
